@@ -5,6 +5,8 @@
    which is what the Go code's keyPath[len(keyPath)-1] relies on. *)
 From Model Require Export Tables.
 
+Definition ip_placeholder : string := "255.255.255.255:65535".
+
 Record consts := {
   c_isodate : string;  (* RedactedISODate *)
   c_oid : string;      (* RedactedObjectId *)
@@ -18,9 +20,43 @@ Record cfg := {
   repl : string;                         (* --replacement *)
   nums : bool; bools : bool; ips : bool; nss : bool;
   eager : list string;                   (* --redactFieldNames *)
-  re : option (string -> bool);          (* --redactFieldsRegexp as a predicate on names *)
-  enc : option (string -> option string) (* Some f iff shouldEncrypt && key <> nil; f s = base64 ciphertext, None = Encrypt error *)
+  re : option (string -> bool)           (* --redactFieldsRegexp as a predicate on names *)
 }.
+
+(* Encryption is not part of cfg: the walkers never look at it. It only determines the string
+   action (redactString): Some f iff shouldEncrypt && key <> nil; f s = base64 ciphertext,
+   None = Encrypt returned an error. *)
+Definition encf := option (string -> option string).
+
+(* What is done to a leaf is separated from the decision to do it: the walkers decide a
+   verdict (from tables, key path and flags) and the configured actions carry it out. *)
+Inductive verdict := VKeep | VStr (ph : string) | VNum | VBool | VHash | VGeneric | VConst (k : string).
+
+Record actions := {
+  a_str : string -> string -> string;   (* original string, class placeholder -> emitted string (redactString) *)
+  a_num : string -> string;             (* number literal -> emitted literal *)
+  a_bool : bool -> bool;
+  a_hash : string -> string;            (* HashName *)
+  a_generic : string                    (* what a non-leaf handed to the scalar step becomes (never reached) *)
+}.
+
+Definition apply_verdict (A : actions) (d : verdict) (v : json) : json :=
+  match d, v with
+  | VStr ph, JStr s => JStr (a_str A s ph)
+  | VNum, JNum n => JNum (a_num A n)
+  | VBool, JBool b => JBool (a_bool A b)
+  | VHash, JStr s => JStr (a_hash A s)
+  | VGeneric, _ => JStr (a_generic A)
+  | VConst k, JStr _ => JStr k
+  | _, _ => v
+  end.
+
+(* redactString *)
+Definition subst_with (enc : option (string -> option string)) (s ph : string) : string :=
+  match enc with
+  | Some f => match f s with Some ct => ct | None => ph end
+  | None => ph
+  end.
 
 Inductive mode :=
 | MP (rfn : bool) (kp : list string) (search : bool)
@@ -32,14 +68,9 @@ Variable tb : tables.
 Variable cs : consts.
 Variable c : cfg.
 Variable is_email : string -> bool.
-Variable hn : string -> string.   (* HashName *)
+Variable A : actions.
 
-(* redactString *)
-Definition subst (s ph : string) : string :=
-  match enc c with
-  | Some f => match f s with Some ct => ct | None => ph end
-  | None => ph
-  end.
+Definition hn : string -> string := a_hash A.
 
 Definition re_matches_any (kp : list string) : bool :=
   match re c with Some r => existsb r kp | None => false end.
@@ -56,27 +87,30 @@ Definition sel_of (l : list json) : bool :=
 
 Definition last_or_empty (l : list string) : string := last l "".
 
-(* redactScalarValue on key path init ++ [lst] *)
-Definition scalar (init : list string) (lst : string) (v : json) (search sel : bool) : json :=
+(* redactScalarValue on key path init ++ [lst]: the decision *)
+Definition scalar_verdict (init : list string) (lst : string) (v : json) (search sel : bool) : verdict :=
   let gp := last_or_empty init in
   let exempt := match get_op tb init lst search with Some m => is_ty m Exempt | None => false end in
-  if exempt then v else
+  if exempt then VKeep else
   let return_plain := negb search && (match re c with Some _ => true | None => false end)
                       && negb sel && negb (re_matches_any (init ++ [lst])) in
-  if return_plain then v else
+  if return_plain then VKeep else
   let by_type :=
     match v with
-    | JNull => JNull
-    | JStr s => if is_email s then JStr (subst s (c_email cs)) else JStr (subst s (repl c))
-    | JNum n => if nums c then JNum (c_num cs) else v
-    | JBool b => if bools c then JBool (c_bool cs) else v
-    | _ => JStr (repl c)
+    | JNull => VKeep
+    | JStr s => if is_email s then VStr (c_email cs) else VStr (repl c)
+    | JNum n => if nums c then VNum else VKeep
+    | JBool b => if bools c then VBool else VKeep
+    | _ => VGeneric
     end in
-  if String.eqb lst "$date" then match v with JStr s => JStr (subst s (c_isodate cs)) | _ => by_type end
-  else if String.eqb lst "$oid" then match v with JStr s => JStr (subst s (c_oid cs)) | _ => by_type end
-  else if String.eqb lst "base64" && String.eqb gp "$binary" then match v with JStr s => JStr (subst s (c_uuid cs)) | _ => by_type end
-  else if String.eqb lst "subType" && String.eqb gp "$binary" then v
+  if String.eqb lst "$date" then match v with JStr s => VStr (c_isodate cs) | _ => by_type end
+  else if String.eqb lst "$oid" then match v with JStr s => VStr (c_oid cs) | _ => by_type end
+  else if String.eqb lst "base64" && String.eqb gp "$binary" then match v with JStr s => VStr (c_uuid cs) | _ => by_type end
+  else if String.eqb lst "subType" && String.eqb gp "$binary" then VKeep
   else by_type.
+
+Definition scalar (init : list string) (lst : string) (v : json) (search sel : bool) : json :=
+  apply_verdict A (scalar_verdict init lst v search sel) v.
 
 Definition core_has (s : string) : bool := match oget (Core tb) s with Some _ => true | None => false end.
 
@@ -160,21 +194,29 @@ Definition sub_member (rfn search : bool) (nkp : list string) (k : string) (m : 
   | _ => fallthrough
   end.
 
+(* the table entry that governs key k below key path kp; in a search stage a map-typed entry is
+   first rewritten by augmentOp against the operator's own arguments *)
+Definition p_op (kp : list string) (k : string) (search : bool) (v : json) : option meta :=
+  let op0 := get_op tb kp k search in
+  match op0, v with
+  | Some (MMap om), JObj vm => if search then Some (MMap (augment_op (re c) om vm)) else op0
+  | _, _ => op0
+  end.
+
+Definition p_key (rfn : bool) (kp : list string) (k : string) (search : bool) : string :=
+  if rfn && (match get_op tb kp k search with None => true | Some MNil => true | _ => false end) then hn k else k.
+
+Definition p_generic (rfn : bool) (kp : list string) (search : bool) (k : string) (v : json) : json :=
+  match v with
+  | JStr s => if starts_with_dollar s && negb rfn then v else scalar kp k v search false
+  | _ => walk_value rfn search (kp ++ [k]) kp k v
+  end.
+
 (* one member (k, v) of an object handled by redactPipelineStage with key path kp *)
 Definition p_member (rfn : bool) (kp : list string) (search : bool) (k : string) (v : json) : string * json :=
   let nkp := (kp ++ [k])%list in
-  let op0 := get_op tb kp k search in
-  let rk := if rfn && (match op0 with None => true | Some MNil => true | _ => false end) then hn k else k in
-  let op := match op0, v with
-            | Some (MMap om), JObj vm => if search then Some (MMap (augment_op (re c) om vm)) else op0
-            | _, _ => op0
-            end in
-  let generic :=
-    match v with
-    | JStr s => if starts_with_dollar s && negb rfn then v else scalar kp k v search false
-    | _ => walk_value rfn search nkp kp k v
-    end in
-  match op with
+  let rk := p_key rfn kp k search in
+  match p_op kp k search v with
   | Some (MT FieldName) =>
       (rk, fieldname_value rfn search nkp [] k
              (fun s => (match kp with [] => false | _ => true end) || is_op_name s search) v)
@@ -191,9 +233,9 @@ Definition p_member (rfn : bool) (kp : list string) (search : bool) (k : string)
   | Some (MMap m) =>
       match v with
       | JObj vm => (rk, JObj (build (map (fun kv => sub_member rfn search nkp k m (fst kv) (snd kv)) vm)))
-      | _ => (rk, generic)
+      | _ => (rk, p_generic rfn kp search k v)
       end
-  | _ => (rk, generic)
+  | _ => (rk, p_generic rfn kp search k v)
   end.
 
 (* one member (k, v) of an object handled by redactQueryValues *)
